@@ -17,14 +17,15 @@ CASE_TIMEOUT_S = 7200  # per-case alarm (seconds); a case that does not finish i
 LEVEL = "exploration"
 TECHNIQUE = CLAIMS[ID]["technique"]
 RULE = (
-    "6 definitions (CSE-heavy, multi-sensor with multi-reading sensors, calibration, all four control x calibration "
+    "10 definitions (CSE-heavy, one with inputs named _t0.._t4, numbered sensor keys, a 5-state turn-rate model, a wide model, multi-sensor with multi-reading sensors, calibration, all four control x calibration "
     "combinations) x declaration-order variants (every permutation of the state declaration order, reversed controls / "
     "calibrations / update-dict / calibration-map / noise dicts / sensors / readings, set vs list containers) x "
     "PYTHONHASHSEED in 0..7 (quick; 4 declaration variants per definition, 3 for the large ones) / 0..63 (thorough), every hash seed in its own interpreter process; observed: the "
     "full text of header and source from cpp.compile_ekf and cpp.compile, and the Python layout (Model.arglist, names of "
     "State/Control/Calibration/Covariance/each Reading, calibration vector, process-noise matrix). Oracle: exactly one "
     "text per definition and output kind, one layout per definition; in every process each definition is generated again with "
-    "time.time / time.monotonic / time.perf_counter moved forward by 1 hour and by 1e9 s and must produce the same text. One evaluation = one generation. distinct = "
+    "time.time / time.monotonic / time.perf_counter moved forward by 1 hour and by 1e9 s and must produce the same text; the processes walk the job list in three different orders (forwards, backwards, rotated), so the "
+    "cross-process comparison also decides that a text does not depend on what was generated before it. One evaluation = one generation. distinct = "
     "(definition, variant, hash seed); non-trivial = variant differs from the base declaration order or hash seed != 0."
 )
 ASSUMPTIONS = ["each hash seed runs in a fresh subprocess of /venv/bin/python with PYTHONHASHSEED set"]
@@ -33,7 +34,10 @@ ASSUMPTIONS = ["each hash seed runs in a fresh subprocess of /venv/bin/python wi
 def base_defs():
     from fv.props.c08 import with_sensors as cse_sens
     cse = [d for d in space.family_cse("thorough") if d["name"] in ("cse-nest3", "cse-sumu-sq-ssin-rat")]
-    return [cse_sens(cse[0]), cse_sens(cse[-1]),
+    # the first definition's inputs are NAMED like CSE temporaries (_t0.._t4): generated before (or, in processes that walk the
+    # job list backwards, after) everything else
+    tnamed = space.rename_def(cse_sens(cse[0]), {"x": "_t0", "y": "_t1", "u": "_t2", "c": "_t3", "z": "_t4"})
+    return [tnamed, cse_sens(cse[0]), cse_sens(cse[-1]),
             space.bind_def(3, 2, 2, order=0, sensors_shape=(2, 1, 3)),
             space.bind_def(3, 0, 1, order=0, sensors_shape=(3, 1)),
             space.bind_def(2, 2, 0, order=0, sensors_shape=(1, 2)),
@@ -113,8 +117,11 @@ def cases(tier, seed):
         for vid, v in variants(d, tier):
             jobs.append([f"{di}:{vid}", v])
     # one case = one hash seed (its own interpreter); the cross-seed comparison happens in finalize
+    # ... and its own ORDER of generation: forwards, backwards, or rotated by a third - the cross-process comparison then also
+    # decides that a generated text does not depend on what the same process generated before it
     for hs in range(nseeds):
-        yield {"hashseed": (hs + seed * 64) % 4294967295 if hs else 0, "jobs": jobs}
+        order = [jobs, list(reversed(jobs)), jobs[len(jobs) // 3:] + jobs[:len(jobs) // 3]][hs % 3]
+        yield {"hashseed": (hs + seed * 64) % 4294967295 if hs else 0, "jobs": order}
 
 
 def run_worker(hashseed, jobs):
@@ -198,11 +205,12 @@ def cross_check(cases_, results):
         for k, h in r["digest"].items():
             if base["digest"].get(k) != h:
                 di, kind = k.split("|")
-                # re-run that one definition under both seeds to get a diff for the replay file
-                jobs = [j for j in c["jobs"] if j[0].startswith(di + ":")][:1]
-                out.append(({"hashseed": c["hashseed"], "jobs": jobs, "compare_with_hashseed": 0},
-                            {"key": f"hash-seed-changes-output:{kind}", "what": f"definition {di}: {kind} generated under PYTHONHASHSEED="
-                             f"{c['hashseed']} differs from PYTHONHASHSEED=0"}))
+                # replay: the same two interpreter processes again (same hash seeds, each with ITS order of generation), diffed
+                order = ["forwards", "backwards", "rotated by a third"][cases_.index(c) % 3]
+                out.append(({"hashseed": c["hashseed"], "jobs": c["jobs"], "compare_with_hashseed": base["hashseed"],
+                             "compare_jobs": cases_[results.index(base)]["jobs"], "only_definition": di},
+                            {"key": f"hash-seed-or-generation-order-changes-output:{kind}", "what": f"definition {di}: {kind} generated under "
+                             f"PYTHONHASHSEED={c['hashseed']} (job list walked {order}) differs from PYTHONHASHSEED={base['hashseed']} (walked forwards)"}))
                 break
     return out
 
@@ -213,14 +221,16 @@ _orig_eval = eval_case
 def eval_case(case):  # noqa: F811  (replay of a cross-seed difference compares two fresh interpreters)
     if "compare_with_hashseed" in case:
         a = run_worker(case["hashseed"], case["jobs"])["results"]
-        b = run_worker(case["compare_with_hashseed"], case["jobs"])["results"]
+        b = run_worker(case["compare_with_hashseed"], case.get("compare_jobs") or case["jobs"])["results"]
         fails = []
         for vid in a:
+            if case.get("only_definition") is not None and not vid.startswith(case["only_definition"] + ":"):
+                continue
             for k in KINDS:
                 if a[vid].get(k) != b[vid].get(k):
                     diff = "\n".join(list(difflib.unified_diff((b[vid].get(k) or "").splitlines(), (a[vid].get(k) or "").splitlines(),
                                                                "seed0", f"seed{case['hashseed']}", lineterm="", n=1))[:40])
-                    fails.append({"key": f"hash-seed-changes-output:{k}", "what": f"{vid}: {k} differs between PYTHONHASHSEED=0 and "
-                                  f"{case['hashseed']}", "detail": diff})
+                    fails.append({"key": f"hash-seed-or-generation-order-changes-output:{k}", "what": f"{vid}: {k} differs between PYTHONHASHSEED="
+                                  f"{case['compare_with_hashseed']} and {case['hashseed']} (each process with its own order of generation)", "detail": diff})
         return {"n": 2, "fails": fails[:2]}
     return _orig_eval(case)
